@@ -23,7 +23,8 @@ namespace
         std::vector<ExecOp> ops;
         std::vector<const FleetEntry*> entries;
         std::vector<Outcome> outs;
-        std::unique_ptr<SharedSimStream> shared;     // one long-lived std::ostream per task (plan.share_streams)
+        std::unique_ptr<SharedSimStream> shared;
+        alignas(16) unsigned char opts_storage[64] = {};   // the task's parse_options object lives here (plan.share_options)     // one long-lived std::ostream per task (plan.share_streams)
     };
     struct RunWork { std::vector<TaskWork> tasks; };
 
@@ -80,6 +81,7 @@ RunResult exec_plan(const Plan& p, const ExecFlags& f)
             int64_t n = int64_t(eo.input.size());
             rec.step_budget = 4096 + 64 * n;
             rec.rd_budget = 65536 + 64 * n;      // reads+advances, and lexer steps: a correct driver is linear in n
+            if (p.share_options) eo.shared_opts = tw.opts_storage;
             if (p.share_streams && eo.stream == STR_SIM && po.stream_fail_after < 0)
             {
                 if (!tw.shared) tw.shared.reset(new SharedSimStream());
